@@ -3,7 +3,10 @@
 from typing import Iterator, Optional
 from .tokens import Token, TokenType, KEYWORDS
 from .errors import JSSyntaxError
-from .values import norm_number
+from .values import norm_number, JS_WHITESPACE
+
+LINE_TERMINATORS = "\n\r\u2028\u2029"
+HEX_DIGITS = "0123456789abcdefABCDEF"
 
 
 def _is_digit(ch: str) -> bool:
@@ -53,7 +56,7 @@ class Lexer:
             ch = self._current()
 
             # Whitespace
-            if ch in " \t\r\n":
+            if ch in JS_WHITESPACE:
                 self._advance()
                 continue
 
@@ -61,7 +64,7 @@ class Lexer:
             if ch == "/" and self._peek() == "/":
                 self._advance()  # /
                 self._advance()  # /
-                while self._current() and self._current() != "\n":
+                while self._current() and self._current() not in LINE_TERMINATORS:
                     self._advance()
                 continue
 
@@ -121,7 +124,7 @@ class Lexer:
                     # Hex escape \xNN
                     hex_chars = self._advance() + self._advance()
                     try:
-                        result.append(chr(int(hex_chars, 16)))
+                        result.append(chr(self._hex_value(hex_chars, 2)))
                     except ValueError:
                         raise JSSyntaxError(
                             f"Invalid hex escape: \\x{hex_chars}",
@@ -141,13 +144,17 @@ class Lexer:
                         for _ in range(4):
                             hex_chars += self._advance()
                     try:
-                        result.append(chr(int(hex_chars, 16)))
+                        result.append(chr(self._hex_value(hex_chars, 1)))
                     except ValueError:
                         raise JSSyntaxError(
                             f"Invalid unicode escape: \\u{hex_chars}",
                             self.line,
                             self.column,
                         )
+                elif escape == "\r" or escape == "\n" or escape in "\u2028\u2029":
+                    # Line continuation: contributes nothing to the value
+                    if escape == "\r" and self._current() == "\n":
+                        self._advance()
                 else:
                     # Unknown escape - just use the character
                     result.append(escape)
@@ -163,6 +170,13 @@ class Lexer:
 
         self._advance()  # Skip closing quote
         return "".join(result)
+
+    @staticmethod
+    def _hex_value(digits: str, min_length: int) -> int:
+        """Value of an escape's hex digits (int() alone also accepts signs, spaces and '_')."""
+        if len(digits) < min_length or any(ch not in HEX_DIGITS for ch in digits):
+            raise ValueError(digits)
+        return int(digits, 16)
 
     def _read_number(self) -> float | int:
         """Read a number literal."""
@@ -434,11 +448,16 @@ class Lexer:
         # Read pattern
         pattern = []
         in_char_class = False
+        terminated = False
 
         while self.pos < self.length:
             ch = self._current()
 
-            if ch == "\\" and self.pos + 1 < self.length:
+            if (
+                ch == "\\"
+                and self.pos + 1 < self.length
+                and self._peek() not in LINE_TERMINATORS
+            ):
                 # Escape sequence - include both characters
                 pattern.append(self._advance())
                 pattern.append(self._advance())
@@ -451,11 +470,15 @@ class Lexer:
             elif ch == "/" and not in_char_class:
                 # End of pattern
                 self._advance()
+                terminated = True
                 break
-            elif ch == "\n":
-                raise JSSyntaxError("Unterminated regex literal", line, column)
+            elif ch in LINE_TERMINATORS:
+                break
             else:
                 pattern.append(self._advance())
+
+        if not terminated:
+            raise JSSyntaxError("Unterminated regex literal", line, column)
 
         # Read flags
         flags = []
